@@ -68,7 +68,7 @@ Fixpoint pump (fuel : nat) (v : variant) (w : world) (idle : nat) (got : list (l
 Definition pump_fuel (w : world) : nat :=
   2 * (qlen (eq_q (ww w)) + qlen (dq_q (wr_ w))) + 16.
 
-Inductive pstat := PSOk | PSFail (code : Z).
+Inductive pstat := PSOk | PSFail (code : Z) | PSPeek (rc : eres) (data : list byte).
 
 Definition err_z (e : err) : Z :=
   match e with
@@ -127,6 +127,9 @@ Definition wstep (v : variant) (w : world) (o : sop) : res (world * list (list b
   | SWire n => do '(w1, _) <- do_wire w n; Ok (w1, [], PSOk)
   | SRecv => do '(w1, m) <- do_recv v w; Ok (w1, match m with Some x => [x] | None => [] end, PSOk)
   | SDrain => do '(w1, got) <- pump (pump_fuel w) v w 0 []; Ok (w1, got, PSOk)
+  | SPeek n dst =>
+    do '(rc, data, d') <- dqueue_peek v (wr_ w) n dst;
+    Ok (mkwd (ww w) d', [], PSPeek rc data)
   end.
 
 Fixpoint wrun (v : variant) (w : world) (ops : list sop) : list (option sobs) :=
